@@ -159,6 +159,8 @@ fn ops_for(dl: usize, p: usize, thorough: bool) -> Vec<Op> {
             v.push(Op::WriteTo { off, count: len });
             v.push(Op::SliceCopyFrom { ty: Ty::U8, off, len, m: len + 1 });
             v.push(Op::SliceCopyFrom { ty: Ty::U16, off, len, m: 2 });
+            v.push(Op::SliceCopyFrom { ty: Ty::U16, off, len, m: len / 2 + 2 });
+            v.push(Op::SliceCopyFrom { ty: Ty::U32, off, len, m: len / 4 + 1 });
             v.push(Op::SliceCopyTo { ty: Ty::U32, off, len, m: 2 });
             v.push(Op::SliceCopyToVs { off: 0, len: len.min(dl), dst: Dst::Same(off.min(dl), dl - off.min(dl)) });
             v.push(Op::SliceCopyToVs { off, len, dst: Dst::Foreign(len + 1) });
@@ -174,6 +176,9 @@ fn ops_for(dl: usize, p: usize, thorough: bool) -> Vec<Op> {
                 v.push(Op::ArrStore { ty, off, n, i: 0 });
                 v.push(Op::ArrCopyFrom { ty, off, n, m: n });
                 v.push(Op::ArrCopyFrom { ty, off, n, m: 1 });
+                // source buffer longer than the array: only the array's bytes are written
+                v.push(Op::ArrCopyFrom { ty, off, n, m: n + 2 });
+                v.push(Op::ArrCopyFrom { ty, off, n: 1, m: 3 });
                 v.push(Op::ArrCopyTo { ty, off, n, m: n });
                 v.push(Op::ArrCopyToVs { ty, off, n, dst: Dst::Same(0, dl) });
             }
@@ -734,10 +739,88 @@ fn part_bc(v: &Verdicts, layout: &Layout, p: usize, thorough: bool) -> u64 {
     t
 }
 
+/// Soundness under concurrency (E3): a consumer that harvests the bitmap and copies the pages it
+/// was told about must end up with the same bytes as guest memory, for every interleaving of the
+/// writer's and the harvester's hooked steps (bitmap RMWs and primitive volatile accesses).
+#[cfg(not(feature = "xen"))]
+fn migration(ctx: &Ctx) -> (u64, u64) {
+    use crate::explore::explore_seq;
+    use crate::sched::{run_threads, ThreadBody};
+    use std::sync::Mutex;
+    use vm_memory::mmap::MmapRegionBuilder;
+    let mut schedules = 0u64;
+    let mut nodes = 0u64;
+    for (kind, off, len) in [("write", 0usize, 8usize), ("write", 4, 4), ("write", 2, 4), ("write", 6, 8), ("write_obj-u64", 8, 8), ("store-u32", 4, 4), ("ref-store-u32", 6, 4), ("array-copy_from-u16", 2, 6), ("read_volatile_from", 3, 5)] {
+        let stats = explore_seq(None, |ex| {
+            let p = 4usize;
+            let region = MmapRegionBuilder::new_with_bitmap(16, AtomicBitmap::new(16, NonZeroUsize::new(p).unwrap()))
+                .with_mmap_prot(libc::PROT_READ | libc::PROT_WRITE)
+                .with_mmap_flags(libc::MAP_ANONYMOUS | libc::MAP_PRIVATE)
+                .build()
+                .unwrap();
+            let region = Arc::new(GuestRegionMmap::new(region, GuestAddress(0x1000)).unwrap());
+            let init: Vec<u8> = (0..16).map(|i| 0x10 + i as u8).collect();
+            unsafe { std::ptr::copy_nonoverlapping(init.as_ptr(), region.as_ptr(), 16) };
+            let image = Arc::new(Mutex::new(init.clone()));
+            let (r1, r2, im2) = (region.clone(), region.clone(), image.clone());
+            let data: Vec<u8> = (0..len).map(|i| 0xA0 + i as u8).collect();
+            let writer: ThreadBody = Box::new(move || {
+                let a = MemoryRegionAddress(off as u64);
+                match kind {
+                    "write" => {
+                        r1.write(&data, a).unwrap();
+                    }
+                    "write_obj-u64" => r1.write_obj(0xA7A6_A5A4_A3A2_A1A0u64, a).unwrap(),
+                    "store-u32" => r1.store(0xA3A2_A1A0u32, a, std::sync::atomic::Ordering::SeqCst).unwrap(),
+                    "ref-store-u32" => r1.as_volatile_slice().unwrap().get_ref::<u32>(off).unwrap().store(0xA3A2_A1A0),
+                    "array-copy_from-u16" => r1.as_volatile_slice().unwrap().get_array_ref::<u16>(off, 3).unwrap().copy_from(&[0xA1A0, 0xA3A2, 0xA5A4]),
+                    _ => {
+                        let mut src: &[u8] = &data;
+                        r1.read_volatile_from(a, &mut src, len).unwrap();
+                    }
+                }
+            });
+            let harvest = move |r: &GuestRegionMmap<AtomicBitmap>, im: &Mutex<Vec<u8>>| {
+                let words = r.bitmap().get_and_reset();
+                let mut g = im.lock().unwrap();
+                for pg in 0..4usize {
+                    if words[0] & (1 << pg) != 0 {
+                        for i in pg * 4..pg * 4 + 4 {
+                            // SAFETY: inside the 16-byte region
+                            g[i] = unsafe { std::ptr::read_volatile(r.as_ptr().add(i)) };
+                        }
+                    }
+                }
+            };
+            let h2 = harvest;
+            let harvester: ThreadBody = Box::new(move || h2(&r2, &im2));
+            let res = run_threads(ex, vec![writer, harvester], 1000);
+            if !res.ok() {
+                ctx.fail(&format!("C05/migration/{}/no-progress-or-panic", kind), &format!("{:?}", res.panics), json!({"kind": kind, "schedule": ex.current_choices()}));
+                return false;
+            }
+            // final pass after the write has returned
+            harvest(&region, &image);
+            let mem = unsafe { std::slice::from_raw_parts(region.as_ptr(), 16) }.to_vec();
+            let img = image.lock().unwrap().clone();
+            if img != mem {
+                let key = format!("C05/migration/{}/changed-byte-never-reported-after-the-change", kind);
+                let rp = if ctx.has_failed(&key) { Value::Null } else { json!({"kind": kind, "offset": off, "len": len, "page_size": 4, "schedule": ex.current_choices(), "trace": res.normalized()}) };
+                ctx.fail(&key, &format!("{} of {} bytes at {}: a consumer that copies every page reported by fetch-and-clear (once during, once after the write) holds {} but guest memory is {}", kind, len, off, hex(&img), hex(&mem)), rp);
+                return false;
+            }
+            true
+        });
+        schedules += stats.executions;
+        nodes += stats.nodes;
+    }
+    (schedules, nodes)
+}
+
 pub fn run(prop: &'static str, tier: Tier, replay: Option<String>) -> i32 {
     let ctx = crate::new_ctx(prop, tier, "model_checking", &replay);
     let thorough = tier.thorough();
-    ctx.set_rule("E1, one enumeration judged by two oracles. (A) tracked VolatileSlices (plain RefSlice, RefSlice at a base offset, nested BaseSlice, ArcSlice, Option Some/None) of 16 and 24 bytes x page sizes {1,2,3,4,5,8,16,N+5} x every derivation chain of up to 2 (thorough 3) links (subslice, offset, split_at either half, get_slice, get_ref->to_slice, get_array_ref->to_slice / ref_at->to_slice; arguments from the boundary alphabet of the page size) x every write and read path of the container alphabet through the derived accessor x start bitmaps clean / checkerboard / all dirty; (B) one mmap region and (C) guest memory with two adjacent regions and a hole, page sizes as above: every route of the byte-access interface at every (address, length), descriptor reads through the real raw-fd adapter over interposed read(2) (full, short, failing after touching a prefix, EINTR), accessors derived through the region/memory API, and write;reset;write histories. C05: every byte that differs from the pre-operation snapshot must be dirty in the owning region's bitmap at the region's own offset. C16: dirty-after == dirty-before U pages overlapping the bytes the reference model says were written (a failing descriptor read may additionally mark its whole target). State = (memory contents, dirty set); every transition runs on the real objects.");
+    ctx.set_rule("E1, one enumeration judged by two oracles. (A) tracked VolatileSlices (plain RefSlice, RefSlice at a base offset, nested BaseSlice, ArcSlice, Option Some/None) of 16 and 24 bytes x page sizes {1,2,3,4,5,8,16,N+5} x every derivation chain of up to 2 (thorough 3) links (subslice, offset, split_at either half, get_slice, get_ref->to_slice, get_array_ref->to_slice / ref_at->to_slice; arguments from the boundary alphabet of the page size) x every write and read path of the container alphabet through the derived accessor x start bitmaps clean / checkerboard / all dirty; (B) one mmap region and (C) guest memory with two adjacent regions and a hole, page sizes as above: every route of the byte-access interface at every (address, length), descriptor reads through the real raw-fd adapter over interposed read(2) (full, short, failing after touching a prefix, EINTR), accessors derived through the region/memory API, and write;reset;write histories. C05: every byte that differs from the pre-operation snapshot must be dirty in the owning region's bitmap at the region's own offset; plus (E3) all interleavings of one tracked write (9 write paths) with one fetch-and-clear consumer that copies the reported pages - after a final pass the consumer's image must equal guest memory. C16: dirty-after == dirty-before U pages overlapping the bytes the reference model says were written (a failing descriptor read may additionally mark its whole target). State = (memory contents, dirty set); every transition runs on the real objects.");
     ctx.assume("raw-pointer writes are exempt as documented; marks through a bare BaseSlice with wrapping offsets are outside both oracles");
     if ctx.replay_of.is_some() {
         println!("replay: the enumeration is deterministic; re-running the quick tier and reporting whether the recorded key fails again");
@@ -772,6 +855,14 @@ pub fn run(prop: &'static str, tier: Tier, replay: Option<String>) -> i32 {
             });
         }
     });
+    #[cfg(not(feature = "xen"))]
+    if prop == "C05" {
+        let (schedules, nodes) = migration(&ctx);
+        ctx.add_traces(schedules);
+        ctx.add_states(nodes);
+        ctx.add_transitions(nodes);
+        ctx.extra("migration_schedules", json!(schedules));
+    }
     let t = total.load(std::sync::atomic::Ordering::Relaxed);
     ctx.add_transitions(t);
     ctx.add_traces(t);
